@@ -355,6 +355,11 @@ func (in *instrumenter) callKind(c *ast.CallExpr) string {
 			}
 		case "(*net.TCPConn).Write", "(*net.conn).Write":
 			if in.isTCPConn(f.X) {
+				// the write goes through vrtConnWrite, which counts the bytes sent so that the harness's
+				// look at the peer's side (vrt_ConnWritten) can wait for exactly those bytes to arrive
+				c.Args = append([]ast.Expr{f.X}, c.Args...)
+				c.Fun = ast.NewIdent("vrtConnWrite")
+				in.changed = true
 				return "conn.Write"
 			}
 		case "(*net.TCPConn).Close", "(*net.conn).Close":
